@@ -237,9 +237,10 @@ def gen_case(rng):
         x = rng.choice([['a', 'b'], ['id1', 'tk'], ['ticker', 'p2'], ['data', 'columns'], ['columns', 'key']])[:nx]
         kinds = [rng.choice(['int', 'str', 'num', 'dt', 'mixed', 'numnan', 'bigint', 'npfloat']) for _ in x]
         cols = {c: [kcell(rng, k) for _ in range(n)] for c, k in zip(x, kinds)}
-        ykind = rng.choice(['str', 'int', 'both', 'str', 'int', 'both', 'other'])
-        ypool = {'str': ['p', 'q', 'r'], 'int': [1, 2, 3], 'both': ['p', 'q', 1, 2], 'other': [2.5, 0.5, {'$dt': '2020-01-01T00:00:00'}, {'$dt': '2021-06-30T00:00:00'}, 'p']}[ykind]
-        if x[0] != 'a' and ykind != 'other':
+        ykind = rng.choice(['str', 'int', 'both', 'str', 'int', 'both', 'other', 'samestr', 'floats'])
+        ypool = {'str': ['p', 'q', 'r'], 'int': [1, 2, 3], 'both': ['p', 'q', 1, 2], 'other': [2.5, 0.5, {'$dt': '2020-01-01T00:00:00'}, {'$dt': '2021-06-30T00:00:00'}, 'p'],
+                 'samestr': [1.5, '1.5', None, 'None', 'p', 2.5], 'floats': [1.0, 2.0, 3.0, 2.5]}[ykind]
+        if x[0] != 'a' and ykind in ('str', 'int', 'both'):
             ypool = {'str': ['tick', 'e', 'd', 'q'], 'int': [1, 2, 3], 'both': ['t', 'k', 1, 2]}[ykind]     # labels that are substrings of an x column name
         cols['y'] = [rng.choice(ypool) for _ in range(n)]
         zpool = [0, 1, 2.5, 'u', 'v', 7, {'$nan': rng.randrange(9)}] + ([None, None] if rng.random() < 0.3 else [])     # None is a value a row may carry, too
